@@ -42,6 +42,17 @@ known by construction from vlib/ref_h4.py, which never runs a parser):
            is cut at every byte position of a short stream (half-close / close / reset),
            client 2 sends a known stream; sink must equal complete(client-1 prefix) +
            client-2 packets. Also chains of three clients.
+  sinkraise  the error path at the hand-over to the next layer: the packet sink raises (10 exception types,
+           InvalidPacketError among them) on the packet at EVERY position of the stream (once), on 2-3 calls in
+           a row, on two separate calls, on every call, and works otherwise.  Every driveable source class
+           (PacketParser, ParserSource, StreamPacketSource, PumpedPacketSource with its pump task, PacketPump,
+           SnoopingTransport.Source, SerialPacketSource), loops around PacketReader / AsyncPacketReader,
+           UsbPacketSource with its dequeue task (one endpoint under all chunkings; 2-3 endpoints interleaved),
+           and - on real sockets - tcp / unix / ws servers (two clients in a row) and the ws-client / tcp-client /
+           unix-client / udp / pty / file transports.  Chunkings: all of the above plus the raising packet ending
+           exactly at a chunk end / followed by the rest of the stream in the same chunk / by half a packet.
+           oracle: the step oracle over the CALLS the sink received (the packet it raised on was handed over):
+           every later packet exactly once, in order, right bytes, none early/late; nothing escapes the source.
 """
 from __future__ import annotations
 
@@ -76,7 +87,12 @@ RULE = ('streams of 1-8 hand-built H4 packets (5 types; bodies 0,1,2,3,127,128,2
         'order of registration of a vendor type (owner first / last / late / none) x type byte x info tuple x '
         'random interleaving of their chunk feeds; distinct = (order, type, info, framer kinds, first stream). '
         'Client cases: transport x stream x chunking (whole, per-packet, bytewise for <= 64 B, sampled 2-chunk '
-        'splits inside packets, random cut sets) x sibling-with-extension before / after / none.')
+        'splits inside packets, random cut sets) x sibling-with-extension before / after / none. '
+        'Sink-raises cases: source x stream of 1-5 packets x set of sink calls that raise (every single position; a run '
+        'of 2 and of 3; two separate; all) x exception type x chunking (the families above with every 2-chunk split and '
+        '1-byte chunks for streams <= 48 B quick / 96 B thorough, + raising packet ends a chunk / shares its chunk with '
+        'all that follows / with half of the next packet); a history counts when the sink did raise and the source '
+        'was fed to the end; distinct = (stream bytes, raising calls, family).')
 ASSUMPTIONS = [
     'the 16-bit length field of an ISO data packet is framed as 16 bits by every framer (its RFU top bits belong to the ISO layer)',
     'PacketReader is given what its signature names, an io.BufferedReader (blocking read(n) returns n '
@@ -95,6 +111,10 @@ ASSUMPTIONS = [
     'coverage.client_transports_unavailable and not required by MIN_EVENTS',
     'a websocket client is "cut at byte position c" by sending the first c bytes in 1-2 binary messages '
     'and then closing or aborting the connection',
+    'a packet on which sink.on_packet raised HAS been handed over (the call was made); "none lost, duplicated" is judged on '
+    'the calls the sink received: the source need not and must not call again with that packet, and an exception of the '
+    'next layer is not a reason to stop, skip, merge or re-frame anything that follows (every source at the pinned commit '
+    'logs it and goes on)',
 ]
 MIN_EVENTS = {
     'quick': {'parser_chunks': 1000000, 'reader_packets': 1500000, 'areader_chunks': 1000000,
@@ -110,7 +130,20 @@ MIN_EVENTS = {
               'source_chunkings_PacketPump': 7000, 'source_classes_driven': 7,
               'isolation_feeds': 40000, 'isolation_foreign_type_reported': 5000, 'isolation_extensions_registered': 2500,
               'client_ws-client_chunkings': 50, 'client_tcp-client_chunkings': 50, 'client_unix-client_chunkings': 50,
-              'client_udp_chunkings': 50, 'client_foreign_type_bytes': 60},
+              'client_udp_chunkings': 50, 'client_foreign_type_bytes': 60,
+              'sinkraise_histories': 90000, 'sinkraise_packets_after_raise': 190000, 'sinkraise_raises_observed': 170000,
+              'sinkraise_histories_PacketParser': 10000, 'sinkraise_histories_ParserSource': 10000,
+              'sinkraise_histories_StreamPacketSource': 10000, 'sinkraise_histories_PumpedPacketSource': 10000,
+              'sinkraise_histories_PacketPump': 10000, 'sinkraise_histories_SnoopingTransport.Source': 10000,
+              'sinkraise_histories_PacketReader-loop': 6000, 'sinkraise_histories_AsyncPacketReader-loop': 6000,
+              'sinkraise_histories_UsbPacketSource': 6000, 'sinkraise_histories_UsbPacketSource-endpoints-interleaved': 350,
+              'sinkraise_raise_at_chunk_end': 24000, 'sinkraise_raise_mid_chunk_packets_follow': 48000,
+              'sinkraise_raise_mid_chunk_partial_follows': 20000, 'sinkraise_bytewise_histories': 1900,
+              'sinkraise_histories_several_raises': 44000, 'sinkraise_raise_on_last_packet': 12000,
+              'sinkraise_socket_histories': 50, 'sinkraise_histories_server-tcp': 4, 'sinkraise_histories_server-unix': 4,
+              'sinkraise_histories_server-ws': 4, 'sinkraise_histories_transport-tcp-client': 9,
+              'sinkraise_histories_transport-unix-client': 9, 'sinkraise_histories_transport-ws-client': 9,
+              'sinkraise_histories_transport-udp': 9},
     'thorough': {'parser_chunks': 20000000, 'reader_packets': 30000000, 'areader_chunks': 20000000,
                  'usb_chunks': 15000000, 'oracle_evals': 150000000, 'agree_evals': 10000000,
                  'exhaustive_chunkings': 400000, 'huge_streams': 2000, 'truncated_streams': 100000,
@@ -124,7 +157,20 @@ MIN_EVENTS = {
                  'source_chunkings_PacketPump': 200000, 'source_classes_driven': 7,
                  'isolation_feeds': 1500000, 'isolation_foreign_type_reported': 200000, 'isolation_extensions_registered': 100000,
                  'client_ws-client_chunkings': 1200, 'client_tcp-client_chunkings': 1200, 'client_unix-client_chunkings': 1200,
-                 'client_udp_chunkings': 1200, 'client_foreign_type_bytes': 2000},
+                 'client_udp_chunkings': 1200, 'client_foreign_type_bytes': 2000,
+                 'sinkraise_histories': 2500000, 'sinkraise_packets_after_raise': 5500000, 'sinkraise_raises_observed': 4500000,
+                 'sinkraise_histories_PacketParser': 280000, 'sinkraise_histories_ParserSource': 280000,
+                 'sinkraise_histories_StreamPacketSource': 280000, 'sinkraise_histories_PumpedPacketSource': 280000,
+                 'sinkraise_histories_PacketPump': 280000, 'sinkraise_histories_SnoopingTransport.Source': 280000,
+                 'sinkraise_histories_PacketReader-loop': 180000, 'sinkraise_histories_AsyncPacketReader-loop': 180000,
+                 'sinkraise_histories_UsbPacketSource': 160000, 'sinkraise_histories_UsbPacketSource-endpoints-interleaved': 9000,
+                 'sinkraise_raise_at_chunk_end': 600000, 'sinkraise_raise_mid_chunk_packets_follow': 1300000,
+                 'sinkraise_raise_mid_chunk_partial_follows': 500000, 'sinkraise_bytewise_histories': 50000,
+                 'sinkraise_histories_several_raises': 1100000, 'sinkraise_raise_on_last_packet': 300000,
+                 'sinkraise_socket_histories': 1500, 'sinkraise_histories_server-tcp': 100, 'sinkraise_histories_server-unix': 100,
+                 'sinkraise_histories_server-ws': 100, 'sinkraise_histories_transport-tcp-client': 250,
+                 'sinkraise_histories_transport-unix-client': 250, 'sinkraise_histories_transport-ws-client': 250,
+                 'sinkraise_histories_transport-udp': 250},
 }
 CASE_TIMEOUT = 600
 SOCKET_WAIT = 60.0          # wall seconds for one counted socket event; expiry => inconclusive
@@ -167,6 +213,17 @@ def plan(tier, seed):
         for i in range(2 if q else 24):
             cases.append({'kind': 'client', 'transport': kind, 'seed': base + 31000 + i,
                           'streams': 4 if q else 6, 'splits': 8 if q else 16})
+    # the packet sink raises on the packet at every position (once, k times in a row, always), every source
+    for i in range(32 if q else 640):
+        cases.append({'kind': 'sinkraise', 'seed': base + 37000 + i, 'streams': 2 if q else 3,
+                      'all2': 48 if q else 96})
+    for i in range(1 if q else 12):
+        for kind in ('tcp', 'unix', 'ws'):
+            cases.append({'kind': 'sinkraise-socket', 'side': 'server', 'transport': kind,
+                          'seed': base + 41000 + i, 'streams': 1 if q else 2})
+        for kind in CLIENT_KINDS:
+            cases.append({'kind': 'sinkraise-socket', 'side': 'client', 'transport': kind,
+                          'seed': base + 43000 + i, 'streams': 1 if q else 2})
     nsrv = 2 if q else 24
     for kind in ('tcp', 'unix', 'ws'):
         for i in range(nsrv):
@@ -1051,12 +1108,12 @@ class Driven:
     """One instance of a source class, with `await feed(chunk)` returning after the chunk has been
     fully processed (the exception that escaped, or None) and `out`, the packets its sink got."""
 
-    def __init__(self, name, cls, how):
+    def __init__(self, name, cls, how, sink=None):
         from bumble.transport import common
 
         self.name, self.how = name, how
         self.out = []
-        self.sink = Forward(self.out)
+        self.sink = sink if sink is not None else Forward(self.out)
         self.task = None
         self.src = None
         self.parser = None
@@ -2081,6 +2138,514 @@ async def client_case_async(case, r: R):
 
 
 # =============================================================================
+# error path at the hand-over: the packet sink raises on one packet (or on k in a row) and then works
+# =============================================================================
+def _struct_error(i):
+    import struct
+    return struct.error(f'unpack requires a buffer of 4 bytes (packet {i})')
+
+
+def _invalid_packet(i):
+    from bumble import core
+    return core.InvalidPacketError(f'handler could not parse packet {i}')
+
+
+SINK_ERRORS = {
+    'KeyError': lambda i: KeyError(f'no handler for packet {i}'),
+    'ValueError': lambda i: ValueError(f'bad value in packet {i}'),
+    'AssertionError': lambda i: AssertionError(f'packet {i}'),
+    'IndexError': lambda i: IndexError('index out of range'),
+    'RuntimeError': lambda i: RuntimeError(f'packet {i}'),
+    'AttributeError': lambda i: AttributeError("'NoneType' object has no attribute 'on_hci_event'"),
+    'struct.error': _struct_error,
+    'InvalidPacketError': _invalid_packet,        # what hci.HCI_Packet.from_bytes raises inside Host.on_packet
+    'TimeoutError': lambda i: asyncio.TimeoutError(),
+    'OSError': lambda i: OSError(32, 'Broken pipe'),  # a bridge sink writing to a transport that went away
+}
+
+
+class RaisingSink:
+    """The next layer, failing now and then.  Records every packet it is CALLED with (a packet on which it
+    then raises has been handed over: the hand-over happened, the handler failed) and raises on the calls
+    whose index is in `fail`.  Judged is the list of calls, never what the sink 'accepted'."""
+
+    def __init__(self, fail, exc_name):
+        self.calls = []
+        self.fail = frozenset(fail)
+        self.exc_name = exc_name
+        self.make = SINK_ERRORS[exc_name]
+        self.raised = 0
+        self.first_raise_at = None
+        self.thrown = []
+
+    @property
+    def packets(self):
+        return self.calls
+
+    def on_packet(self, p):
+        i = len(self.calls)
+        self.calls.append(p)
+        if i in self.fail:
+            self.raised += 1
+            if self.first_raise_at is None:
+                self.first_raise_at = i
+            e = self.make(i)
+            self.thrown.append(e)
+            raise e
+
+
+class SinkSteps(Steps):
+    """The step oracle over the calls a RaisingSink received.  Keys name the source and what happened to
+    the packets that follow the one the sink raised on."""
+
+    CLAUSE = {'late': 'later-packets-lost', 'lost': 'later-packets-lost', 'early': 'duplicated-or-early',
+              'extra': 'duplicated-or-extra', 'content': 'misframed-or-redelivered'}
+
+    def __init__(self, r, source, s, family, cuts, sink):
+        super().__init__(r, f'sink-raises/{source}', s, family, cuts)
+        self.sink = sink
+        self.escaped = None
+
+    def key(self, clause, i):
+        if not self.sink.raised:
+            return f'{self.framer}/before-any-raise/{clause}'
+        if clause.startswith('raised/'):
+            if any(self.escaped is x for x in self.sink.thrown):
+                return f'{self.framer}/sink-exception-escaped'      # the sink's own exception came out of the source
+            return f'{self.framer}/raised-after-sink-exception/{clause.split("/", 1)[1]}'
+        return f'{self.framer}/{self.CLAUSE.get(clause, clause)}'
+
+    def raised(self, e, fed, out, what):
+        self.escaped = e
+        super().raised(e, fed, out, what)
+
+    def ctx(self):
+        return (f'sink raises {self.sink.exc_name} on call(s) {sorted(self.sink.fail)} and works otherwise '
+                f'({self.sink.raised} raised so far, {len(self.sink.calls)} calls); ' + super().ctx())
+
+
+def raise_position_class(bounds, cuts, N, i):
+    """Where packet i (the one the sink raises on) ends relative to the chunks."""
+    ends = sorted(set(list(cuts) + [N]))
+    end_i = bounds[i]
+    if end_i in ends:
+        return 'at_chunk_end'
+    chunk_end = ends[bisect.bisect_left(ends, end_i)]
+    if H.complete_in_prefix(bounds, chunk_end) > i + 1:
+        return 'mid_chunk_packets_follow'
+    return 'mid_chunk_partial_follows'
+
+
+def sinkraise_account(r: R, source, s, family, cuts, sink, bounds=None):
+    """Counters of one history that went through: what was observed after the raise."""
+    r.ev('sinkraise_histories')
+    r.ev('sinkraise_histories_' + source)
+    r.ev('sinkraise_raises_observed', sink.raised)
+    if sink.first_raise_at is not None:
+        r.ev('sinkraise_packets_after_raise', len(sink.calls) - sink.first_raise_at - 1)
+        r.ev('sinkraise_raise_' + raise_position_class(bounds or s.bounds, cuts, len(s.data), sink.first_raise_at))
+        if len(sink.calls) - sink.first_raise_at - 1 == 0:
+            r.ev('sinkraise_raise_on_last_packet')
+    if family == 'bytewise':
+        r.ev('sinkraise_bytewise_histories')
+    if len(sink.fail) > 1:
+        r.ev('sinkraise_histories_several_raises')
+
+
+async def sinkraise_class(r: R, entry, s: Stream, family, cuts, fail, exc_name):
+    name, cls, how = entry
+    sink = RaisingSink(fail, exc_name)
+    d = Driven(name, cls, how, sink=sink)
+    st = SinkSteps(r, name, s, family, cuts, sink)
+    fed = 0
+    try:
+        for ch in H.split_at(s.data, cuts):
+            e = await d.feed(ch)
+            if e is not None:
+                st.raised(e, fed, sink.calls, f'{name} ({how})')
+                return False
+            fed += len(ch)
+            if not st.after(fed, sink.calls):
+                return False
+        if not st.final(sink.calls):
+            return False
+        sinkraise_account(r, name, s, family, cuts, sink)
+        return True
+    finally:
+        await d.close()
+
+
+async def sinkraise_reader_loops(r: R, rng, s: Stream, family, cuts, fail, exc_name):
+    """The pull readers have no sink of their own: the loop around them hands the packet over, the handler
+    raises, the loop logs and asks for the next packet (what PacketPump.run does with the async reader).
+    The reader must then return the packet that follows."""
+    from bumble.transport.common import AsyncPacketReader, PacketReader
+
+    chunks = H.split_at(s.data, cuts)
+    n = len(s.packets)
+    sink = RaisingSink(fail, exc_name)
+    st = SinkSteps(r, 'PacketReader-loop', s, family, cuts, sink)
+    raw = ShortRaw(chunks)
+    reader = PacketReader(io.BufferedReader(raw, buffer_size=rng.choice([1, 3, 16, 4096])))
+    ok = True
+    for _ in range(n + 2):
+        try:
+            p = reader.next_packet()
+        except Exception as e:
+            st.raised(e, raw.pos, sink.calls, 'next_packet')
+            ok = False
+            break
+        if p is None:
+            break
+        try:
+            sink.on_packet(p)
+        except Exception:
+            pass
+    if ok and st.final(sink.calls):
+        sinkraise_account(r, 'PacketReader-loop', s, family, cuts, sink)
+    sink = RaisingSink(fail, exc_name)
+    st = SinkSteps(r, 'AsyncPacketReader-loop', s, family, cuts, sink)
+    sr = asyncio.StreamReader(limit=2 ** 20)
+    ar = AsyncPacketReader(sr)
+    for ch in chunks:
+        sr.feed_data(ch)
+    sr.feed_eof()
+    ok = True
+    for _ in range(n + 2):
+        try:
+            p = await ar.next_packet()
+        except asyncio.IncompleteReadError:
+            break
+        except Exception as e:
+            st.raised(e, len(s.data), sink.calls, 'next_packet')
+            ok = False
+            break
+        try:
+            sink.on_packet(p)
+        except Exception:
+            pass
+    if ok and st.final(sink.calls):
+        sinkraise_account(r, 'AsyncPacketReader-loop', s, family, cuts, sink)
+
+
+def typed_at_sink(s: Stream) -> Stream:
+    """Endpoint view of a same-type stream (offsets count bytes without the type byte) whose expected
+    packets are what the USB source's sink must get: with the type byte."""
+    u = untyped(s)
+    u.packets = list(s.packets)
+    return u
+
+
+async def _usb_source(sink):
+    from bumble.transport import usb
+
+    src = usb.UsbPacketSource(None, {}, None, None, None)
+    src.set_packet_sink(sink)
+    src.dequeue_task = asyncio.get_running_loop().create_task(src.dequeue())
+    return src
+
+
+async def _usb_close(src):
+    src.close()
+    src.dequeue_task.cancel()
+    try:
+        await src.dequeue_task
+    except BaseException:
+        pass
+
+
+async def sinkraise_usb_single(r: R, rng, s: Stream, t, family, cuts, fail, exc_name):
+    """One endpoint of a real UsbPacketSource (no device), its dequeue task running: transfers cut as the
+    chunking says; the sink raises on the given calls."""
+    u = typed_at_sink(s)
+    sink = RaisingSink(fail, exc_name)
+    src = await _usb_source(sink)
+    st = SinkSteps(r, 'UsbPacketSource', u, family, cuts, sink)
+    via_callback = rng.random() < 0.6
+    fed = 0
+    ok = True
+    try:
+        for ch in H.split_at(u.data, cuts):
+            try:
+                if via_callback:
+                    src.transfer_callback(FakeTransfer(rng, t, ch, r))
+                else:
+                    src.splitters[t].feed(ch)
+            except Exception as e:
+                st.raised(e, fed, sink.calls, 'transfer_callback' if via_callback else 'splitter.feed')
+                ok = False
+                break
+            fed += len(ch)
+            for _ in range(3):
+                await asyncio.sleep(0)
+            if len(sink.calls) < H.complete_in_prefix(u.bounds, fed):
+                for _ in range(10):      # "lost" must not be a loop turn that was not granted
+                    await asyncio.sleep(0)
+            if not st.after(fed, sink.calls):
+                ok = False
+                break
+        if ok and st.final(sink.calls):
+            sinkraise_account(r, 'UsbPacketSource', u, family, cuts, sink)
+            return True
+        return False
+    finally:
+        await _usb_close(src)
+
+
+async def sinkraise_usb_multi(r: R, rng, per, order, fail, exc_name):
+    """Two or three endpoints interleaved (`order` = [(type, chunk)..]); the sink raises on the given
+    calls counted over all endpoints.  After every transfer the number of calls must equal the number of
+    packets complete on the endpoints; at the end every endpoint's packets came exactly once, in order."""
+    sink = RaisingSink(fail, exc_name)
+    src = await _usb_source(sink)
+    name = 'UsbPacketSource-endpoints-interleaved'
+    ub = {t: H.bounds_of([p[1:] for p in per[t].packets]) for t in per}
+    fed = {t: 0 for t in per}
+    total = sum(len(per[t].packets) for t in per)
+    ctx = (f'sink raises {exc_name} on call(s) {sorted(fail)}; endpoints '
+           f'{ {H.NAME[x]: per[x].desc for x in per} }, {len(order)} transfers')
+    try:
+        for t, ch in order:
+            src.transfer_callback(FakeTransfer(rng, t, ch, r))
+            fed[t] += len(ch)
+            want = sum(H.complete_in_prefix(ub[x], fed[x]) for x in per)
+            for _ in range(3):
+                await asyncio.sleep(0)
+            if len(sink.calls) < want:
+                for _ in range(10):
+                    await asyncio.sleep(0)
+            r.ev('oracle_evals')
+            if len(sink.calls) != want:
+                after = 'before-any-raise/' if not sink.raised else ''
+                r.bad(f'sink-raises/{name}/{after}' + ('duplicated-or-early' if len(sink.calls) > want else 'later-packets-lost'),
+                      f'{len(sink.calls)} packets handed over, {want} complete on the endpoints ({sink.raised} raised so far); {ctx}')
+                return False
+        for t in per:
+            r.ev('oracle_evals')
+            got = [p for p in sink.calls if p[:1] == bytes([t])]
+            if got != per[t].packets:
+                r.bad(f'sink-raises/{name}/misframed-or-redelivered',
+                      f'endpoint {H.NAME[t]}: handed over {[bytes(p)[:6].hex() for p in got[:8]]}, sent {per[t].desc}; {ctx}')
+                return False
+        r.ev('oracle_evals')
+        if len(sink.calls) != total:
+            r.bad(f'sink-raises/{name}/duplicated-or-extra', f'{len(sink.calls)} calls for {total} packets; {ctx}')
+            return False
+        r.ev('sinkraise_histories')
+        r.ev('sinkraise_histories_' + name)
+        r.ev('sinkraise_raises_observed', sink.raised)
+        if sink.first_raise_at is not None:
+            r.ev('sinkraise_packets_after_raise', len(sink.calls) - sink.first_raise_at - 1)
+        if len(fail) > 1:
+            r.ev('sinkraise_histories_several_raises')
+        return True
+    finally:
+        await _usb_close(src)
+
+
+def fail_sets(rng, n):
+    """Every position once; runs of k = 2..3 calls in a row; the whole stream; two separate positions."""
+    out = [[i] for i in range(n)]
+    if n >= 2:
+        i = rng.randrange(n - 1)
+        out.append([i, i + 1])
+        out.append(list(range(n)))
+    if n >= 3:
+        i = rng.randrange(n - 2)
+        out.append([i, i + 1, i + 2])
+        a, b = sorted(rng.sample(range(n), 2))
+        out.append([a, b])
+    return out
+
+
+def sinkraise_chunkings(rng, s: Stream, fail, limit):
+    """The chunkings of `chunkings()` (every 2-chunk split, 1-byte chunks, per-packet, header-aligned,
+    boundary +-1, random) plus, for the packet the sink raises on first: a chunk that ends exactly with it,
+    a chunk that holds it and everything after it, and a chunk that holds it and half of the next."""
+    yield from chunkings(rng, s, all2_limit=limit, one_limit=limit, nrandom=2)
+    i = min(fail)
+    N = len(s.data)
+    start = s.bounds[i - 1] if i else 0
+    end = s.bounds[i]
+    yield 'raise-ends-chunk', sorted({start, end} - {0, N})
+    yield 'raise-then-rest-in-chunk', sorted({start} - {0})
+    if i + 1 < len(s.bounds):
+        mid = (end + s.bounds[i + 1] + 1) // 2
+        yield 'raise-then-half-packet', sorted({max(0, end - 1), mid} - {0, N})
+        yield 'raise-split-inside', sorted({(start + end) // 2, s.bounds[i + 1]} - {0, N})
+
+
+async def sinkraise_case(case, r: R):
+    rng = random.Random(case['seed'])
+    entries = [e for e in source_classes() if e[2] not in (None, 'reader', 'areader')]
+    names = sorted(SINK_ERRORS)
+    sample = None
+    for _ in range(case['streams']):
+        # ---- every driveable source class + the reader loops -------------------------------------
+        s = gen_stream(rng, nmax=5, small=rng.random() < 0.7)
+        while len(s.packets) < 2 and rng.random() < 0.8:
+            s = gen_stream(rng, nmax=5, small=True)
+        n = len(s.packets)
+        for fail in fail_sets(rng, n):
+            exc_name = rng.choice(names)
+            fams = set()
+            k = 0
+            for family, cuts in sinkraise_chunkings(rng, s, fail, case['all2']):
+                k += 1
+                for entry in entries:
+                    await sinkraise_class(r, entry, s, family, cuts, fail, exc_name)
+                if k % 3 == 0 or family != 'all2':
+                    await sinkraise_reader_loops(r, rng, s, family, cuts, fail, exc_name)
+                if family not in fams:
+                    fams.add(family)
+                    r.sig('sinkraise', s.data[:1024], tuple(fail), family)
+            r.evals(k)
+        # ---- UsbPacketSource, one endpoint, all chunkings ----------------------------------------
+        t = rng.choice([H.EVT, H.ACL, H.SCO])
+        su = gen_stream(rng, nmax=4, same_type=t, small=rng.random() < 0.7)
+        u = typed_at_sink(su)
+        for fail in fail_sets(rng, len(su.packets)):
+            exc_name = rng.choice(names)
+            k = 0
+            for family, cuts in sinkraise_chunkings(rng, u, fail, case['all2']):
+                k += 1
+                await sinkraise_usb_single(r, rng, su, t, family, cuts, fail, exc_name)
+            r.evals(k)
+            r.sig('sinkraise-usb', t, u.data[:1024], tuple(fail))
+        # ---- UsbPacketSource, endpoints interleaved ----------------------------------------------
+        per = {}
+        feeds = []
+        for t2 in (H.EVT, H.ACL, H.SCO):
+            if t2 == H.SCO and rng.random() < 0.4:
+                continue
+            s2 = gen_stream(rng, same_type=t2, nmax=4, small=rng.random() < 0.6)
+            per[t2] = s2
+            u2 = untyped(s2)
+            cuts = sorted(rng.randint(0, len(u2.data)) for _ in range(rng.choice([0, 1, 3, 8])))
+            feeds.append([(t2, ch) for ch in H.split_at(u2.data, cuts)])
+        order = []
+        idx = [0] * len(feeds)
+        while any(i < len(f) for i, f in zip(idx, feeds)):
+            j = rng.choice([j for j in range(len(feeds)) if idx[j] < len(feeds[j])])
+            order.append(feeds[j][idx[j]])
+            idx[j] += 1
+        total = sum(len(per[x].packets) for x in per)
+        for fail in fail_sets(rng, total):
+            await sinkraise_usb_multi(r, rng, per, order, fail, rng.choice(names))
+            r.evals()
+        r.sig('sinkraise-usb-multi', tuple((x, per[x].data[:256]) for x in per), len(order))
+        sample = {'kind': 'sinkraise', 'stream': s.desc, 'sources': [e[0] for e in entries] +
+                  ['PacketReader-loop', 'AsyncPacketReader-loop', 'UsbPacketSource', 'UsbPacketSource-endpoints-interleaved'],
+                  'fail_sets': [list(f) for f in fail_sets(random.Random(0), n)], 'usb_stream': su.desc,
+                  'usb_endpoints': {H.NAME[x]: per[x].desc for x in per}}
+    r.sample = sample
+
+
+async def sinkraise_socket_case_async(case, r: R):
+    """The same on real transports: a tcp / unix / ws SERVER transport whose sink raises (two clients in a
+    row: the second one's packets must all come out too), and the client / datagram / tty transports
+    against a raw peer (step oracle after every write)."""
+    rng = random.Random(case['seed'])
+    kind = case['transport']
+    names = sorted(SINK_ERRORS)
+    install_tap()
+    try:
+        n = 0
+        if case['side'] == 'server':
+            name = f'server-{kind}'
+            for _ in range(case['streams']):
+                s1, s2 = short_stream(rng), short_stream(rng)
+                both = Stream(s1.packets + s2.packets)
+                for fail in fail_sets(rng, len(both.packets)):
+                    exc_name = rng.choice(names)
+                    sink = RaisingSink(fail, exc_name)
+                    srv = Server(kind)
+                    srv.sink = sink
+                    TAP['raised'] = None
+                    await srv.open()
+                    st = SinkSteps(r, name, both, 'two-clients', [len(s1.data)], sink)
+                    try:
+                        style = 'close' if kind == 'ws' else 'half-close'
+                        good = True
+                        for s, fed in ((s1, len(s1.data)), (s2, len(both.data))):
+                            await srv.client(s.data, style, rng)
+                            if TAP['raised'] is not None:
+                                st.raised(TAP['raised'], fed, sink.calls, f'{kind} server parser')
+                                good = False
+                                break
+                            if not st.after(fed, sink.calls):
+                                good = False
+                                break
+                        if good and st.final(sink.calls):
+                            sinkraise_account(r, name, both, 'two-clients', [len(s1.data)], sink)
+                            r.ev('sinkraise_socket_histories')
+                    finally:
+                        TAP['raised'] = None
+                        await srv.close()
+                    r.evals()
+                    n += 1
+                r.sig('sinkraise-server', kind, both.data)
+            r.sample = {'kind': 'sinkraise-socket', 'side': 'server', 'transport': kind, 'histories': n}
+            return
+        name = f'transport-{kind}'
+        for _ in range(case['streams']):
+            s = short_stream(rng)
+            N = len(s.data)
+            for fail in fail_sets(rng, len(s.packets)):
+                exc_name = rng.choice(names)
+                i = min(fail)
+                start, end = (s.bounds[i - 1] if i else 0), s.bounds[i]
+                fams = [('whole', []), ('per-packet', s.bounds[:-1]), ('raise-ends-chunk', sorted({start, end} - {0, N})),
+                        ('random', sorted(rng.randint(0, N) for _ in range(rng.choice([1, 2, 4]))))]
+                if fail == [0] or len(fail) > 1:
+                    fams.append(('bytewise', list(range(1, N))))
+                for family, cuts in fams:
+                    sink = RaisingSink(fail, exc_name)
+                    peer = Peer(kind)
+                    peer.sink = sink
+                    TAP['raised'] = None
+                    try:
+                        try:
+                            await peer.open()
+                        except Unavailable as e:
+                            r.ev(f'client_{kind}_unavailable')
+                            r.add_extra_list('client_transports_unavailable', f'{kind}: {e}')
+                            r.sample = {'kind': 'sinkraise-socket', 'transport': kind, 'unavailable': str(e)}
+                            return
+                        st = SinkSteps(r, name, s, family, cuts, sink)
+                        fed = 0
+                        total = TAP['bytes']
+                        good = True
+                        for ch in H.split_at(s.data, cuts):
+                            if not ch:
+                                continue
+                            await peer.send(ch)
+                            total += len(ch)
+                            await wait_tap(total, f'{kind}: bytes of one chunk at the parser')
+                            if TAP['raised'] is not None:
+                                st.raised(TAP['raised'], fed, sink.calls, f'{kind} transport parser')
+                                good = False
+                                break
+                            fed += len(ch)
+                            if not st.after(fed, sink.calls):
+                                good = False
+                                break
+                        if good and st.final(sink.calls):
+                            sinkraise_account(r, name, s, family, cuts, sink)
+                            r.ev('sinkraise_socket_histories')
+                    finally:
+                        TAP['raised'] = None
+                        await peer.close()
+                    r.evals()
+                    n += 1
+            r.sig('sinkraise-client', kind, s.data)
+        r.sample = {'kind': 'sinkraise-socket', 'side': 'client', 'transport': kind, 'histories': n}
+    finally:
+        remove_tap()
+        TAP['event'] = None
+
+
+# =============================================================================
 # entry point
 # =============================================================================
 def run_case(case, r: R):
@@ -2095,9 +2660,13 @@ def run_case(case, r: R):
         TAP['bytes'] = 0
         asyncio.run(client_case_async(case, r))
         return
+    if kind == 'sinkraise-socket':
+        TAP['bytes'] = 0
+        asyncio.run(sinkraise_socket_case_async(case, r))
+        return
     coro = {'frame': frame_case, 'big': big_case, 'exhaust': exhaust_case,
             'invalid': invalid_case, 'usbsrc': usbsrc_case, 'sources': sources_case,
-            'isolation': isolation_case}[kind](case, r)
+            'isolation': isolation_case, 'sinkraise': sinkraise_case}[kind](case, r)
     vloop.run(coro)
 
 
@@ -2111,7 +2680,10 @@ LEVEL_TEXT = ('Hand-built H4 streams (5 packet types, boundary body lengths up t
               'bumble.transport.common found at run time is driven through the same chunkings; several framers are '
               'kept alive and fed interleaved while one of them registers a vendor packet type (which every other '
               'one must go on reporting as invalid); ws-client / tcp-client / unix-client / udp / pty / file transports '
-              'are opened for real against a raw peer that cuts the stream into messages anywhere. Sequences of 1-3 '
+              'are opened for real against a raw peer that cuts the stream into messages anywhere. A sink that raises on '
+              'the packet at every position (once / k times in a row / always) is put behind every source class, the USB '
+              'source with its dequeue task, reader loops and the real socket transports: all later packets must still be '
+              'handed over exactly once, in order. Sequences of 1-3 '
               'tiny packets are enumerated with every split into <= 3 chunks. Held = no '
               'refuting execution among those observed; sampling outside the enumerated sub-space.')
 LEVEL_NOTE = ('Trusted: vlib/ref_h4.py (layout table written from Core Vol 4 Part A/E; expected framing is '
